@@ -11,12 +11,23 @@
 //         z                 size()                          -> n
 //         a / A             filter(PartialFactors{}) / filter(Factors{})  (= getAllIds) -> id list
 //         F <f list>        FasterTrie::filter(Factors)     -> id list (order unspecified)
-//         R <pf> <remove>   FasterTrie::reconstruct         -> entries (id pf)*, then factors
+//         R <pf> <remove>   FasterTrie::reconstruct         -> entries (id pf)*, factors, orders_, ids of every bucket
 // <pf> = <keys list> <values list>; lists are count-prefixed.
-#include <AIToolbox/Factored/Utils/Trie.hpp>
-#include <AIToolbox/Factored/Utils/FasterTrie.hpp>
-#include <AIToolbox/Factored/Utils/FilterMap.hpp>
 #include "vio.hpp"
+#include <random>
+#include <tuple>
+#include <algorithm>
+#include <AIToolbox/Factored/Types.hpp>
+#include <AIToolbox/Factored/Utils/Core.hpp>
+#include <AIToolbox/Utils/IndexMap.hpp>
+#include <AIToolbox/Factored/Utils/Trie.hpp>
+// FasterTrie's private members (keys_, orders_) are read after reconstruct() so that the shuffles it
+// performed become inputs of the model.  Everything FasterTrie.hpp includes is already included
+// above, so the define only touches the class itself.
+#define private public
+#include <AIToolbox/Factored/Utils/FasterTrie.hpp>
+#undef private
+#include <AIToolbox/Factored/Utils/FilterMap.hpp>
 using namespace AIToolbox::Factored;
 
 static Factors readFactors(vio::Cursor & c) { auto v = c.nextSizes(); return Factors(v.begin(), v.end()); }
@@ -98,6 +109,14 @@ static void runFaster(vio::Cursor & c, vio::Out & o) {
             o << (size_t) entries.size();
             for (const auto & [id, epf] : entries) { o << id; o.list(epf.first); o.list(epf.second); }
             o.list(f);
+            // the shuffles: orders_[0], orders_[o+1], and every bucket's order after the call
+            o << (size_t) t.orders_.size();
+            for (const auto & ord : t.orders_) o.list(ord);
+            for (const auto & row : t.keys_)
+                for (const auto & bucket : row) {
+                    o << (size_t) bucket.size();
+                    for (const auto & e : bucket) o << e.first;
+                }
         }
         else throw std::logic_error("unknown ftrie op " + op);
     }
